@@ -645,6 +645,30 @@ def run_graphs(tier, seed):
     parts = pmap(check_graphs, jobs)
     cases = sum(p['cases'] for p in parts)
     fails = [{'witness': w, 'detail': d, 'cls': c} for p in parts for c, d, w in p['fails']]
+    # leaves that are not JSON-native by themselves: an Enum member stands for its VALUE, converted like any other value
+    import enum
+    import json as _json
+    from tatsu.util.asjson import asjson
+
+    class Leaf(enum.Enum):
+        INT = 1
+        STR = 'x'
+        PAIR = (1, 'x')
+        SET = frozenset({7})
+        MAP = (('k', (1, 2)),)
+        NESTED = ((1, (2, (3,))), 'y')
+    for member, want in ((Leaf.INT, 1), (Leaf.STR, 'x'), (Leaf.PAIR, [1, 'x']), (Leaf.SET, [7]), (Leaf.MAP, [['k', [1, 2]]]),
+                         (Leaf.NESTED, [[1, [2, [3]]], 'y'])):
+        for holder, expect in (([member], [want]), ({'v': member}, {'v': want}), ((member, 0), [want, 0])):
+            cases += 1
+            wit = {'python': f'tatsu.util.asjson.asjson({holder!r}) with enum value {member.value!r}'}
+            try:
+                got = asjson(holder)
+                _json.dumps(got)
+                if got != expect:
+                    fails.append({'witness': wit, 'cls': 'asjson-graphs/enum-value-not-converted', 'detail': f'expected {expect!r} got {got!r}'})
+            except Exception as e:  # noqa: BLE001
+                fails.append({'witness': wit, 'cls': 'asjson-graphs/not-json-dumpable', 'detail': f'{type(e).__name__}: {e}'[:200]})
     return bitem(PROP, 'asjson-graphs', function='tatsu.util.asjson.asjson',
                  domain='object graphs: n container nodes (list, dict, tuple, namedtuple, AST, Node subclass; all type assignments for n <= 2, '
                         'the 6 uniform + a seeded sample of mixed ones above), two slots per node, each slot a scalar or ANY node (all sharing and cycle shapes)',
